@@ -222,10 +222,13 @@ class Registration:
         return json.dumps(self.as_dict())
 
     def as_record(self):
-        from webauthn.helpers.structs import RegistrationCredential, AuthenticatorAttestationResponse
+        from webauthn.helpers.structs import RegistrationCredential, AuthenticatorAttestationResponse, AuthenticatorAttachment
+        kw = {}
+        if self.attachment in ("platform", "cross-platform"):
+            kw["authenticator_attachment"] = AuthenticatorAttachment(self.attachment)
         return RegistrationCredential(id=self.id_text, raw_id=self.cred_id,
                                       response=AuthenticatorAttestationResponse(client_data_json=self.cdj, attestation_object=self.att_obj),
-                                      type=self.typ)
+                                      type=self.typ, **kw)
 
 
 FORMATS = ["none", "packed-self", "packed", "fido-u2f", "tpm", "apple", "android-key", "android-safetynet"]
